@@ -35,13 +35,15 @@ def keep (prok : Bool) (key : List Char) : Bool := !prok || decide (key ≠ "mRN
 theorem flavourFilter_eq (prok : Bool) (fs : List Feature) : flavourFilter prok fs = fs.filter (fun f => keep prok f.key) := by
   unfold flavourFilter keep
   cases prok
-  · simp [List.filter_eq_self]
+  · simp only [Bool.not_false, Bool.true_or, if_false, Bool.false_eq_true]
+    exact (List.filter_eq_self.2 (fun _ _ => rfl)).symm
   · simp
 
 theorem flavourSkels_eq (prok : Bool) (l : List Skel) : flavourSkels prok l = l.filter (fun s => keep prok s.key) := by
   unfold flavourSkels keep
   cases prok
-  · simp [List.filter_eq_self]
+  · simp only [Bool.not_false, Bool.true_or, if_false, Bool.false_eq_true]
+    exact (List.filter_eq_self.2 (fun _ _ => rfl)).symm
   · simp
 
 theorem realises_filter (pre : List Char) (tag : Nat) (prok : Bool) : ∀ (sk : List Skel) (qs : List Quals) (ws : List Want),
@@ -163,5 +165,94 @@ theorem call_staged (table : Nat) (ht : table = 0 ∨ table = 1 ∨ table = 11) 
       rw [this]; exact s1
     · simp only [List.map_cons, s2]; rfl
     · exact ⟨h1, s3⟩
+
+/-! ### the hypotheses are satisfiable: minimal dictionaries -/
+
+/-- the smallest dictionary C17 needs on a feature object -/
+def minimalQuals (pre : List Char) (tagNo : Nat) (s : Skel) : Quals :=
+  ("locus_tag".toList, [some (pre ++ '_' :: natStr tagNo)]) ::
+    (match s.codonStart with
+     | some n => [("codon_start".toList, [some (natStr n)])]
+     | none => [])
+
+theorem minimalQuals_for (pre : List Char) (hp : '\t' ∉ pre ∧ '\n' ∉ pre) (tagNo : Nat) (s : Skel) :
+    QualFor pre tagNo s (minimalQuals pre tagNo s) := by
+  have hnat : ∀ n, '\t' ∉ natStr n ∧ '\n' ∉ natStr n := fun n =>
+    ⟨fun h => BioCantor.Proofs.Bed.tab_not_digit (BioCantor.Proofs.Bed.natStr_digits n _ h),
+     fun h => nl_not_digit (BioCantor.Proofs.Bed.natStr_digits n _ h)⟩
+  have h1 : ¬ ("codon_start".toList = "locus_tag".toList) := by decide
+  have h2 : ¬ ("locus_tag".toList = "codon_start".toList) := by decide
+  refine ⟨?_, ?_, ?_⟩
+  · intro kv hkv
+    unfold minimalQuals at hkv
+    rcases List.mem_cons.1 hkv with rfl | hkv
+    · refine ⟨(by decide : "locus_tag".toList ≠ []), (by decide : '\t' ∉ "locus_tag".toList),
+        (by decide : '\n' ∉ "locus_tag".toList), ?_⟩
+      intro v hv
+      simp only [List.mem_singleton, Option.some.injEq] at hv
+      subst hv
+      simp only [List.mem_append, List.mem_cons, not_or]
+      exact ⟨⟨hp.1, by decide, (hnat tagNo).1⟩, ⟨hp.2, by decide, (hnat tagNo).2⟩⟩
+    · cases hc : s.codonStart with
+      | none => rw [hc] at hkv; simp at hkv
+      | some n =>
+        rw [hc] at hkv
+        simp only [List.mem_singleton] at hkv
+        subst hkv
+        refine ⟨(by decide : "codon_start".toList ≠ []), (by decide : '\t' ∉ "codon_start".toList),
+          (by decide : '\n' ∉ "codon_start".toList), ?_⟩
+        intro v hv
+        simp only [List.mem_singleton, Option.some.injEq] at hv
+        subst hv
+        exact hnat n
+  · intro n hn _
+    unfold minimalQuals
+    rw [hn]
+    simp [List.filter_cons, h2]
+  · unfold minimalQuals
+    cases s.codonStart <;> simp [List.filter_cons, h1]
+
+theorem mem_zip_map {α β} (f : α → β) : ∀ (l : List α) (p : α × β), p ∈ l.zip (l.map f) → p.2 = f p.1
+  | [], p, h => by simp at h
+  | a :: l, p, h => by
+    simp only [List.map_cons, List.zip_cons_cons, List.mem_cons] at h
+    rcases h with rfl | h
+    · rfl
+    · exact mem_zip_map f l p h
+
+/-- for every gene inside the claim there ARE dictionaries that fit (so `GenesStaged` / `CallStaged` are satisfiable
+    exactly when the genes are inside the claim) -/
+theorem qualsFit_exists (c : CollIn) (hch : ChromOK c.genome) (ht : c.table = 0 ∨ c.table = 1 ∨ c.table = 11)
+    (hp : '\t' ∉ c.tagPrefix ∧ '\n' ∉ c.tagPrefix) (tagNo : Nat) (g : Gene) (h : GeneOK c.genome g) :
+    ∃ qs, QualsFit c tagNo g qs := by
+  obtain ⟨sk, _, h1, _, _⟩ := tblGene_ok g c hch ht tagNo h
+  refine ⟨sk.map (minimalQuals c.tagPrefix tagNo), ?_⟩
+  intro sk' hsk'
+  rw [h1] at hsk'
+  have : sk' = sk := (Except.ok.inj hsk').symm
+  subst this
+  refine ⟨by simp, ?_⟩
+  intro p hp'
+  have := mem_zip_map (minimalQuals c.tagPrefix tagNo) sk' p hp'
+  rw [this]
+  exact minimalQuals_for c.tagPrefix hp tagNo p.1
+
+/-- **one `collection_to_tbl` call, end to end**: for every list of collections inside the claim there are the
+    feature lists the model prints (`collectionFeatures` per collection), the text of the call reads back, and the
+    sections meet C17 (`okFiles`): one header per collection naming its sequence, every feature its clauses, locus tags
+    `prefix_<n·step>` with `n` running on across the collections. -/
+theorem call_meets_property (table : Nat) (ht : table = 0 ∨ table = 1 ∨ table = 11) (prok : Bool) (pre : List Char)
+    (hpre : plainChars pre) (step : Nat) (colls : List (List Char × List Char × List (Gene × List Quals)))
+    (h : CallStaged table prok pre step 1 colls) :
+    ∃ items : List (CollIn × List Want × List Feature),
+      items.map (·.1) = colls.map (fun x => collInOf x.1 x.2.1 table prok pre step x.2.2) ∧
+      Rel2 (fun (x : List Char × List Char × List (Gene × List Quals)) (it : CollIn × List Want × List Feature) =>
+        collectionFeatures prok (some x.2.1) (table : Int) x.2.2 = .ok it.2.2) colls items ∧
+      ∃ t secs, filesText (items.map (fun it => (it.1.seqName, it.2.2))) = some t ∧
+        Spec.Tbl.read t = some secs ∧
+        okFiles (colls.map (fun x => collInOf x.1 x.2.1 table prok pre step x.2.2)) secs = true := by
+  obtain ⟨items, s1, s2, s3⟩ := call_staged table ht prok pre hpre step 1 colls h
+  obtain ⟨t, secs, h1, h2, h3⟩ := okFiles_of_staged items s1
+  exact ⟨items, s2, s3, t, secs, h1, h2, by rw [← s2]; exact h3⟩
 
 end BioCantor.Proofs.Tbl
